@@ -34,7 +34,7 @@ func (E *Engine) Encode(name string, level int) (res *FuncResult) {
 	res.Enc = enc
 	fx := &fx{E: E, enc: enc, root: name, entryHeap: map[string]Term{}, strs: map[string]Value{}, floats: map[string]Term{}, globalVal: map[*ssa.Global]Value{}}
 	fx.brk0 = enc.Decl("brk0", "Int")
-	enc.Assume(Gt(fx.brk0, "0"))
+	enc.Assume(Gt(fx.brk0, "1000000"))
 	defer func() {
 		if r := recover(); r != nil {
 			switch e := r.(type) {
@@ -70,6 +70,12 @@ func (E *Engine) Encode(name string, level int) (res *FuncResult) {
 			}
 		}
 	}
+	// implicit precondition: a pointer receiver is non-nil (checked at call sites that use the callee's contract)
+	if fn.Signature.Recv() != nil && len(fn.Params) > 0 {
+		if _, ok := under(fn.Params[0].Type()).(*types.Pointer); ok {
+			enc.Assume(Ne(fr.vals[fn.Params[0]].T, "0"))
+		}
+	}
 	for _, fv := range fn.FreeVars {
 		v := fx.sym("fv."+fv.Name(), fv.Type())
 		fr.vals[fv] = v
@@ -77,7 +83,7 @@ func (E *Engine) Encode(name string, level int) (res *FuncResult) {
 	}
 	fr.curReach = True
 	if ct != nil {
-		ev := fr.env(entry, nil, nil)
+		ev := fr.env(entry, entry, nil)
 		ev.local = nil
 		for _, group := range [][]*Clause{ct.Requires, ct.Preserves} {
 			for _, c := range group {
